@@ -115,9 +115,30 @@ func newL2Ep(r *Rec, nu int, names []string, dapDenoms []string, minB, maxB, dur
 	}
 	gk := w.app.CustomGovKeeper
 	np := gk.GetNetworkProperties(ctx)
-	np.MinDappBond, np.MaxDappBond, np.DappBondDuration = minB, maxB, dur
-	if err := gk.SetNetworkProperties(ctx, np); err != nil {
-		panic(err)
+	if r.Rng.Intn(2) == 0 {
+		np.MinDappBond, np.MaxDappBond, np.DappBondDuration = minB, maxB, dur
+		if err := gk.SetNetworkProperties(ctx, np); err != nil {
+			panic(err)
+		}
+	} else {
+		// one property at a time, as a SetNetworkProperty proposal writes them (the larger bound first when both rise)
+		type kv struct {
+			id govtypes.NetworkProperty
+			v  uint64
+		}
+		order := []kv{{govtypes.MaxDappBond, maxB}, {govtypes.MinDappBond, minB}, {govtypes.DappBondDuration, dur}}
+		if maxB < np.MinDappBond {
+			order[0], order[1] = order[1], order[0]
+		}
+		for _, o := range order {
+			if err := gk.SetNetworkProperty(ctx, o.id, govtypes.NetworkPropertyValue{Value: o.v}); err != nil {
+				panic(err)
+			}
+		}
+		r.Count("episode:bond-bounds-set-one-by-one")
+	}
+	if got := gk.GetNetworkProperties(ctx); got.MinDappBond != minB || got.MaxDappBond != maxB || got.DappBondDuration != dur {
+		r.Fail("C20/config/bond-bounds-not-as-set", fmt.Sprintf("minimum / maximum dApp bond and bootstrap period set to %d / %d / %d; the network properties read %d / %d / %d", minB, maxB, dur, got.MinDappBond, got.MaxDappBond, got.DappBondDuration), nil)
 	}
 	// who is exempt from the bond rules of CreateDappProposal: decided by the permission rule (an individual or role
 	// blacklist beats every whitelist). In some episodes the sudo account 0 has the permission the gate consults
